@@ -929,5 +929,6 @@ func registerBig(e *Engine) {
 		return FpPred("fp.isInfinite", getF(e, st, a[0]).f)
 	}
 	registerFloatBridge(e)
+	registerModels2(e)
 
 }
